@@ -774,45 +774,48 @@ func c04Conversions(c *ev.Ctx) {
 			}
 		}
 	}
-	gout := m.runGoose(c)
-	if gout.exit == 2 || strings.Contains(gout.stderr, "goroutine ") {
-		c04CrashTriage(c, m, gout.stderr)
-		return
-	}
-	reConv := regexp.MustCompile(`\b[A-Za-z0-9_]+__to__[A-Za-z0-9_]+\b`)
-	for _, name := range m.pkgs {
-		text, ok := gout.files[name]
-		if !ok {
-			continue // rejected: not judged here
+	// the same packages under the flags that add source-location comments / typing lemmas to every definition
+	for _, flags := range [][]string{{}, {"-source-comments"}, {"-typecheck", "-source-comments"}} {
+		gout := m.runGoose(c, flags...)
+		if gout.exit == 2 || strings.Contains(gout.stderr, "goroutine ") {
+			c04CrashTriage(c, m, gout.stderr)
+			return
 		}
-		files := map[string]string{"gen.go.txt": srcs[name], "emitted.v": text}
-		prog, perr := vparse.ParseFile(text)
-		if perr != nil {
-			c.Inconclusive("emitted file of %s does not parse: %v", name, perr)
-			continue
-		}
-		count := map[string]int{}
-		for _, d := range prog.Decls {
-			if d.Name != "" && (d.Kind == "def" || d.Kind == "structdecl" || d.Kind == "tydef") {
-				count[d.Name]++
+		reConv := regexp.MustCompile(`\b[A-Za-z0-9_]+__to__[A-Za-z0-9_]+\b`)
+		for _, name := range m.pkgs {
+			text, ok := gout.files[name]
+			if !ok {
+				continue // rejected: not judged here
 			}
-		}
-		for n, k := range count {
-			if k > 1 {
-				c.Report("c04.names", fmt.Sprintf("package %s: %s is defined %d times", name, n, k), files)
+			files := map[string]string{"gen.go.txt": srcs[name], "emitted.v": text}
+			prog, perr := vparse.ParseFile(text)
+			if perr != nil {
+				c.Inconclusive("emitted file of %s does not parse: %v", name, perr)
+				continue
 			}
-		}
-		for _, cv := range reConv.FindAllString(text, -1) {
-			if count[cv] == 0 {
-				c.Report("c04.conversion-undefined", fmt.Sprintf("package %s: the generated conversion %s is used but never defined", name, cv), files)
+			count := map[string]int{}
+			for _, d := range prog.Decls {
+				if d.Name != "" && (d.Kind == "def" || d.Kind == "structdecl" || d.Kind == "tydef") {
+					count[d.Name]++
+				}
+			}
+			for n, k := range count {
+				if k > 1 {
+					c.Report("c04.names", fmt.Sprintf("package %s: %s is defined %d times", name, n, k), files)
+				}
+			}
+			for _, cv := range reConv.FindAllString(text, -1) {
+				if count[cv] == 0 {
+					c.Report("c04.conversion-undefined", fmt.Sprintf("package %s: the generated conversion %s is used but never defined", name, cv), files)
+					break
+				}
+			}
+			for _, pr := range defOrderProblems(prog) {
+				c.Report("c04.conversion-order", fmt.Sprintf("package %s: %s", name, pr[1]), files)
+			}
+			if c.NViolations() > 8 {
 				break
 			}
-		}
-		for _, pr := range defOrderProblems(prog) {
-			c.Report("c04.conversion-order", fmt.Sprintf("package %s: %s", name, pr[1]), files)
-		}
-		if c.NViolations() > 8 {
-			break
 		}
 	}
 }
